@@ -196,6 +196,12 @@ func (db *DB) FindInBatches(dest interface{}, batchSize int, fc func(tx *DB, bat
 		if limit, ok := c.Expression.(clause.Limit); ok {
 			if limit.Limit != nil {
 				totalSize = *limit.Limit
+
+				// LIMIT 0 selects no rows, as it does for Find
+				if totalSize == 0 {
+					tx.RowsAffected = 0
+					return tx
+				}
 			}
 
 			if totalSize > 0 && batchSize > totalSize {
